@@ -49,6 +49,12 @@ def _do_chunked_reproject(
     if dtype is None:
         dtype = ba.dtype
 
+    if dst_nodata is None and src_nodata is None:
+        if np.issubdtype(np.dtype(dtype), np.floating):
+            # same fill as ``resolve_fill_value`` and ``rio_reproject``:
+            # float data without any nodata is filled with nan, not 0
+            dst_nodata = np.nan
+
     dst_shape = ba.with_yx(ba.shape, dst_gbox.shape)
     dst = np.zeros(dst_shape, dtype=dtype)
 
